@@ -44,14 +44,13 @@ Validate ==
     /\ n' = n + 1
 
 Close ==
-    /\ last.op # "AsFinal"
     /\ last' = [op |-> "AsFinal", res |-> AsFinal(snaps).res, start |-> AsFinal(snaps).start, end |-> AsFinal(snaps).end]
     /\ UNCHANGED <<snaps, n>>
 
 Next == Validate \/ Close
 Spec == Init /\ [][Next]_vars
 
-View == <<snaps, last.op = "AsFinal">>
+View == snaps
 
 Inv == /\ RoundInv(snaps)
        /\ CloseOK(snaps)
